@@ -662,7 +662,7 @@ def replay_of(p, extra=None):
     return obj
 
 
-def run(ctx, out):
+def _run_component(ctx, out):
     t0 = time.time()
     dcap = default_cap()
     thorough = ctx.thorough
@@ -931,3 +931,10 @@ def run(ctx, out):
         "http_parser / ws_handle_frame / parse_message outcomes are parameters (`ok`) of the client models; the ws header machine is re-implemented thinly in the harness (websocket.c itself is tied by C12)",
         "kernel: read() returns between 1 and `count` bytes, 0 at end of stream, -1 with EAGAIN/EWOULDBLOCK or another errno",
     ]
+
+
+def run(ctx, out):
+    _run_component(ctx, out)
+    # whole-daemon family (framework owner): see vlib/xdiff.py
+    from vlib import xdiff
+    xdiff.segmentation(ctx, out)
